@@ -197,15 +197,64 @@ Lemma add_observation_reject : forall g c pt,
   grid_index_of A leb g pt = Ok None -> add_observation A leb g c pt = Ok (c, BinNotFound).
 Proof. intros g c pt H. unfold add_observation. rewrite H. reflexivity. Qed.
 
+(* the accepted case needs the flat index to be inside the counts array ... *)
 Lemma add_observation_accept : forall g c pt idx,
   grid_index_of A leb g pt = Ok (Some idx) ->
+  ravel (grid_shape A g) idx < length c ->
   add_observation A leb g c pt = Ok (bump (ravel (grid_shape A g) idx) c, Added).
-Proof. intros g c pt idx H. unfold add_observation. rewrite H. reflexivity. Qed.
+Proof.
+  intros g c pt idx H Hk. unfold add_observation. rewrite H. cbn [bind]. cbv zeta.
+  destruct (Nat.ltb_spec (ravel (grid_shape A g) idx) (length c)) as [Hlt | Hge]; [reflexivity | lia].
+Qed.
+
+(* ... which is automatic when the counts array has the grid's size *)
+Lemma add_observation_accept_len : forall g c pt idx,
+  grid_index_of A leb g pt = Ok (Some idx) ->
+  length c = prod_list (grid_shape A g) ->
+  add_observation A leb g c pt = Ok (bump (ravel (grid_shape A g) idx) c, Added).
+Proof.
+  intros g c pt idx H Hlen. apply add_observation_accept; [exact H|].
+  rewrite Hlen. apply ravel_lt. eapply grid_index_of_in_shape; exact H.
+Qed.
+
+(* ... and otherwise the indexing [self.counts[&*bin_index]] panics *)
+Lemma add_observation_accept_oob : forall g c pt idx,
+  grid_index_of A leb g pt = Ok (Some idx) ->
+  length c <= ravel (grid_shape A g) idx ->
+  add_observation A leb g c pt = Panic.
+Proof.
+  intros g c pt idx H Hk. unfold add_observation. rewrite H. cbn [bind]. cbv zeta.
+  destruct (Nat.ltb_spec (ravel (grid_shape A g) idx) (length c)) as [Hlt | Hge]; [lia | reflexivity].
+Qed.
 
 Lemma add_observation_not_fuel g c pt : add_observation A leb g c pt <> OutOfFuel.
 Proof.
   unfold add_observation, grid_index_of.
-  destruct (length pt =? length g); [destruct (index_all A leb g pt)|]; discriminate.
+  destruct (length pt =? length g); [destruct (index_all A leb g pt) as [idx|]|]; cbn [bind]; cbv zeta;
+    try discriminate.
+  destruct (Nat.ltb_spec (ravel (grid_shape A g) idx) (length c)) as [Hlt | Hge]; discriminate.
+Qed.
+
+(* inversion: the only two ways of getting [Ok] *)
+Lemma add_observation_Ok_inv : forall g c pt r,
+  add_observation A leb g c pt = Ok r ->
+  (grid_index_of A leb g pt = Ok None /\ r = (c, BinNotFound)) \/
+  (exists idx, grid_index_of A leb g pt = Ok (Some idx) /\
+     ravel (grid_shape A g) idx < length c /\
+     r = (bump (ravel (grid_shape A g) idx) c, Added)).
+Proof.
+  intros g c pt r H. unfold add_observation in H.
+  destruct (grid_index_of A leb g pt) as [[idx|]| |]; cbn [bind] in H; cbv zeta in H; try discriminate.
+  - destruct (Nat.ltb_spec (ravel (grid_shape A g) idx) (length c)) as [Hlt | Hge]; [|discriminate].
+    right. exists idx. inversion H; subst. auto.
+  - left. inversion H; subst. auto.
+Qed.
+
+Lemma add_observation_length : forall g c pt r,
+  add_observation A leb g c pt = Ok r -> length (fst r) = length c.
+Proof.
+  intros g c pt r H. apply add_observation_Ok_inv in H.
+  destruct H as [[_ Hr] | [idx [_ [_ Hr]]]]; subst r; cbn [fst]; [reflexivity | apply bump_length].
 Qed.
 
 (* ------------------------------------------------------------------ *)
@@ -244,7 +293,7 @@ Proof.
   - inversion HF as [|? ? Hpt HF']; subst. cbn [add_all] in Hadd.
     pose proof (grid_index_of_arity_ok g pt Hpt) as Hg.
     destruct (index_all A leb g pt) as [idx'|] eqn:Eia.
-    + rewrite (add_observation_accept _ c0 _ _ Hg) in Hadd. cbn [bind fst] in Hadd.
+    + rewrite (add_observation_accept_len _ c0 _ _ Hg Hlen) in Hadd. cbn [bind fst] in Hadd.
       pose proof (grid_index_of_in_shape _ _ _ Hg) as Hin.
       pose proof (ravel_lt _ _ Hin) as Hk.
       apply IH in Hadd; [| exact HF' | rewrite bump_length; exact Hlen].
@@ -262,16 +311,30 @@ Proof.
       unfold lands. rewrite Hg. lia.
 Qed.
 
-Theorem add_all_ok : forall g h c0,
-  Forall (fun pt => length pt = length g) h -> exists c, add_all A leb g c0 h = Ok c.
+(* the length of the counts array never changes *)
+Lemma add_all_length : forall g h c0 c,
+  add_all A leb g c0 h = Ok c -> length c = length c0.
 Proof.
-  intros g h. induction h as [|pt t IH]; intros c0 HF.
+  intros g h. induction h as [|pt t IH]; intros c0 c Hadd.
+  - simpl in Hadd. inversion Hadd; subst. reflexivity.
+  - cbn [add_all] in Hadd.
+    destruct (add_observation A leb g c0 pt) as [r| |] eqn:E; cbn [bind] in Hadd; try discriminate.
+    apply IH in Hadd. rewrite Hadd. eapply add_observation_length; exact E.
+Qed.
+
+Theorem add_all_ok : forall g h c0,
+  Forall (fun pt => length pt = length g) h ->
+  length c0 = prod_list (grid_shape A g) ->
+  exists c, add_all A leb g c0 h = Ok c.
+Proof.
+  intros g h. induction h as [|pt t IH]; intros c0 HF Hlen.
   - exists c0. reflexivity.
   - inversion HF as [|? ? Hpt HF']; subst. cbn [add_all].
     pose proof (grid_index_of_arity_ok g pt Hpt) as Hg.
     destruct (index_all A leb g pt) as [idx'|].
-    + rewrite (add_observation_accept _ c0 _ _ Hg). cbn [bind fst]. apply IH; exact HF'.
-    + rewrite (add_observation_reject _ c0 _ Hg). cbn [bind fst]. apply IH; exact HF'.
+    + rewrite (add_observation_accept_len _ c0 _ _ Hg Hlen). cbn [bind fst].
+      apply IH; [exact HF' | rewrite bump_length; exact Hlen].
+    + rewrite (add_observation_reject _ c0 _ Hg). cbn [bind fst]. apply IH; [exact HF' | exact Hlen].
 Qed.
 
 (* ------------------------------------------------------------------ *)
@@ -288,7 +351,7 @@ Theorem histogram_spec : forall g rows,
       nth (ravel (grid_shape A g) idx) c 0 = hits g idx rows.
 Proof.
   intros g rows HF. unfold histogram.
-  destruct (add_all_ok g rows (hist_init A g) HF) as [c Hc].
+  destruct (add_all_ok g rows (hist_init A g) HF (hist_init_length g)) as [c Hc].
   exists c. split; [exact Hc|].
   destruct (hist_inv g rows _ c HF (hist_init_length g) Hc) as [Hl Hn].
   split; [rewrite Hl; apply hist_init_length|].
@@ -316,7 +379,10 @@ Proof. intros g rows HE. unfold histogram. apply add_all_arity_panic; exact HE. 
 (* 8. order independence                                               *)
 (* ------------------------------------------------------------------ *)
 (* Stronger than asked: the whole result (Ok / Panic alike) is invariant, with no
-   arity hypothesis. *)
+   arity hypothesis and no hypothesis on [length c0].  This survives the
+   out-of-bounds Panic: [bump] preserves the length, so whether a given point is
+   in bounds does not depend on what was inserted before it; if either of two
+   swapped points is out of bounds (or has the wrong arity) both orders Panic. *)
 Lemma add_all_perm_eq : forall g h h',
   Permutation h h' -> forall c0, add_all A leb g c0 h = add_all A leb g c0 h'.
 Proof.
@@ -327,9 +393,22 @@ Proof.
     pose proof (grid_index_of_not_fuel g x) as Nx.
     pose proof (grid_index_of_not_fuel g y) as Ny.
     destruct (grid_index_of A leb g y) as [[iy|]| |];
-      destruct (grid_index_of A leb g x) as [[ix|]| |]; cbn [bind fst];
+      destruct (grid_index_of A leb g x) as [[ix|]| |]; cbn [bind fst]; cbv zeta;
       try reflexivity; try congruence.
-    rewrite bump_comm. reflexivity.
+    + (* both accepted *)
+      set (kx := ravel (grid_shape A g) ix). set (ky := ravel (grid_shape A g) iy).
+      destruct (Nat.ltb_spec kx (length c0)) as [Hx | Hx];
+        destruct (Nat.ltb_spec ky (length c0)) as [Hy | Hy]; cbn [bind fst];
+        rewrite ?bump_length; try reflexivity.
+      * destruct (Nat.ltb_spec kx (length c0)) as [Hx' | Hx']; [|lia].
+        destruct (Nat.ltb_spec ky (length c0)) as [Hy' | Hy']; [|lia].
+        cbn [bind fst]. rewrite bump_comm. reflexivity.
+      * destruct (Nat.ltb_spec ky (length c0)) as [Hy' | Hy']; [lia | reflexivity].
+      * destruct (Nat.ltb_spec kx (length c0)) as [Hx' | Hx']; [lia | reflexivity].
+    + (* y accepted, x wrong arity (accepted/rejected pairs are closed by reflexivity) *)
+      destruct (Nat.ltb_spec (ravel (grid_shape A g) iy) (length c0)) as [Hy | Hy]; reflexivity.
+    + (* y wrong arity, x accepted *)
+      destruct (Nat.ltb_spec (ravel (grid_shape A g) ix) (length c0)) as [Hx | Hx]; reflexivity.
   - rewrite IH1. apply IH2.
 Qed.
 
@@ -344,28 +423,33 @@ Qed.
 (* ------------------------------------------------------------------ *)
 (* 9. total count                                                      *)
 (* ------------------------------------------------------------------ *)
-(* NB the hypothesis [length c0 = prod_list (grid_shape A g)] is necessary: [bump]
-   is a no-op on an out-of-range position (see total_count_needs_length below). *)
-Theorem total_count : forall g h c0 c,
-  Forall (fun pt => length pt = length g) h ->
-  length c0 = prod_list (grid_shape A g) ->
+(* No hypothesis on [length c0] is needed any more: an accepted observation whose
+   flat index is outside the counts array is a Panic (see counts_oob_panics below),
+   so an [Ok] result means every accepted observation really was counted.  The
+   arity hypothesis is not needed either ([Ok] already implies it). *)
+Theorem total_count_gen : forall g h c0 c,
   add_all A leb g c0 h = Ok c ->
   list_sum c = list_sum c0 +
     length (filter (fun pt => match grid_index_of A leb g pt with
                               | Ok (Some _) => true | _ => false end) h).
 Proof.
-  intros g h. induction h as [|pt t IH]; intros c0 c HF Hlen Hadd.
+  intros g h. induction h as [|pt t IH]; intros c0 c Hadd.
   - simpl in Hadd. inversion Hadd; subst. simpl. lia.
-  - inversion HF as [|? ? Hpt HF']; subst. cbn [add_all] in Hadd. cbn [filter].
-    pose proof (grid_index_of_arity_ok g pt Hpt) as Hg.
-    destruct (index_all A leb g pt) as [idx'|] eqn:Eia; rewrite Hg.
-    + rewrite (add_observation_accept _ c0 _ _ Hg) in Hadd. cbn [bind fst] in Hadd.
-      pose proof (ravel_lt _ _ (grid_index_of_in_shape _ _ _ Hg)) as Hk.
-      apply IH in Hadd; [| exact HF' | rewrite bump_length; exact Hlen].
-      rewrite Hadd, list_sum_bump by lia. simpl. lia.
-    + rewrite (add_observation_reject _ c0 _ Hg) in Hadd. cbn [bind fst] in Hadd.
-      apply IH in Hadd; [| exact HF' | exact Hlen]. exact Hadd.
+  - cbn [add_all] in Hadd. cbn [filter].
+    destruct (add_observation A leb g c0 pt) as [r| |] eqn:E; cbn [bind] in Hadd; try discriminate.
+    apply IH in Hadd. apply add_observation_Ok_inv in E.
+    destruct E as [[Hg Hr] | [idx [Hg [Hk Hr]]]]; subst r; cbn [fst] in Hadd; rewrite Hg.
+    + exact Hadd.
+    + rewrite Hadd, list_sum_bump by exact Hk. simpl. lia.
 Qed.
+
+Theorem total_count : forall g h c0 c,
+  Forall (fun pt => length pt = length g) h ->
+  add_all A leb g c0 h = Ok c ->
+  list_sum c = list_sum c0 +
+    length (filter (fun pt => match grid_index_of A leb g pt with
+                              | Ok (Some _) => true | _ => false end) h).
+Proof. intros g h c0 c _ Hadd. apply total_count_gen; exact Hadd. Qed.
 
 (* ------------------------------------------------------------------ *)
 (* 10. an axis with no bins                                            *)
@@ -406,15 +490,10 @@ Example histogram_Z_example :
   histogram Z Z.leb [[1;3;5]%Z; [0;10]%Z] [[1;5];[3;0];[4;9];[5;5];[2;10]]%Z = Ok [1; 2].
 Proof. vm_compute. reflexivity. Qed.
 
-(* total_count without [length c0 = prod_list (grid_shape g)] is false of the model:
-   an accepted observation on a too-short counts array is silently dropped by [bump]. *)
-Example total_count_needs_length :
-  let g := [[0;10]%Z] in
-  Forall (fun pt => length pt = length g) [[5%Z]] /\
-  add_all Z Z.leb g [] [[5%Z]] = Ok [] /\
-  grid_index_of Z Z.leb g [5%Z] = Ok (Some [0]) /\
-  list_sum (@nil nat) <> list_sum (@nil nat) + 1.
-Proof. vm_compute. repeat split; try (repeat constructor); discriminate. Qed.
+(* an accepted observation on a too-short counts array panics, as
+   [self.counts[&*bin_index] += 1] does in the Rust code *)
+Example counts_oob_panics : add_all Z Z.leb [[0;10]%Z] [] [[5%Z]] = Panic.
+Proof. vm_compute. reflexivity. Qed.
 
 Print Assumptions prod_list_cons.
 Print Assumptions prod_list_nil.
@@ -430,13 +509,21 @@ Print Assumptions grid_index_of_in_shape.
 Print Assumptions add_observation_arity.
 Print Assumptions add_observation_reject.
 Print Assumptions add_observation_accept.
+Print Assumptions add_observation_accept_len.
+Print Assumptions add_observation_accept_oob.
+Print Assumptions add_observation_not_fuel.
+Print Assumptions add_observation_Ok_inv.
+Print Assumptions add_observation_length.
+Print Assumptions add_all_length.
 Print Assumptions hist_inv.
 Print Assumptions add_all_ok.
 Print Assumptions histogram_spec.
+Print Assumptions add_all_arity_panic.
 Print Assumptions histogram_arity_panic.
 Print Assumptions add_all_perm_eq.
 Print Assumptions hist_perm.
+Print Assumptions total_count_gen.
 Print Assumptions total_count.
 Print Assumptions zero_bin_axis.
 Print Assumptions histogram_Z_example.
-Print Assumptions total_count_needs_length.
+Print Assumptions counts_oob_panics.
